@@ -125,6 +125,32 @@ namespace c08
     extern void (*lazy_extra)(); // fills K.extra when a message is actually needed
     extern unsigned long nbad;   // number of bad()/fault() reports so far
     extern unsigned long ncalls; // calls of the functions under test so far
+    extern const char *ONLY;     // history sub-checks: the testers that bundle several functions call only this one
+    // History schedule shared by str_history / mem_history: one function is called HIST_STEPS times in one process.
+    // Step k uses a "common" argument tuple (rotation of period 7) except: for each gap g of HIST_GAPS a RARE tuple
+    // (built around a byte used nowhere else) at step t and a PROBE tuple at step t+g whose correct result differs
+    // from what a stale remnant of the rare call would give. Gaps around 2^8-1, 2^8, 2*2^8, 2^16-1, 2^16: state kept
+    // between calls under an 8/16-bit generation counter or index comes back to life exactly there.
+    static const int HIST_GAPS[11] = {254, 255, 256, 257, 510, 511, 512, 65534, 65535, 65536, 65537};
+    static const int HIST_STEPS = 65600;
+    struct HistEv
+    {
+        int kind; // 0 common (q = k mod 7), 1 rare, 2 probe (q = index of the gap)
+        int q;
+    };
+    inline HistEv hist_event(int k)
+    {
+        for (int q = 0; q < 11; q++)
+        {
+            int t = 10 + 3 * q;
+            if (k == t)
+                return HistEv{1, q};
+            if (k == t + HIST_GAPS[q])
+                return HistEv{2, q};
+        }
+        return HistEv{0, k % 7};
+    }
+    inline bool want(const char *fn) { return !ONLY || !strcmp(ONLY, fn); }
     // lengths and positions used by the "large" sub-checks (counters/sizes narrowed to 8 or 16 bits show only there)
     std::vector<size_t> large_lengths();
     std::vector<size_t> large_positions(size_t L); // {0,1,254,255,256,257,L-1} below L
